@@ -348,6 +348,7 @@ def run_case(ctx, st, pt, p: Pep):
 def run(ctx):
     st = State()
     pt = install(ctx, st)
+    ctx.enable_disturb(pt, 0.02)     # other legitimate library calls interleaved between cases (vf.gen.disturb)
     cfg = gp.GenCfg(min_len=1, max_len=14, letters=LETTERS, weights=dict(gp.W_ALL), p_res=0.35, max_per_site=3,
                     p_interval=0.3, p_charge=0.3, p_isotope=0.2, p_static=0.25, p_labile=0.25, p_unknown=0.2, p_mult=0.15)
     import copy as _copy
